@@ -199,6 +199,10 @@ func recC19(c *ctx) {
 			ok, beta := ecvrf.Verify(pub, a[0], a[1])
 			return tf(ok), neutral2(!ok, beta == nil)
 		}},
+		{"ecvrf.ProveWithAddedRandomness", 2, func(a [][]byte) (string, string) {
+			b, err := ecvrf.ProveWithAddedRandomness(bytes.NewReader(make([]byte, 64)), a[0], a[1])
+			return okErr(err), neutral(err, b == nil)
+		}},
 		{"ecvrf.ProofToHash", 1, func(a [][]byte) (string, string) {
 			b, err := ecvrf.ProofToHash(a[0])
 			return okErr(err), neutral(err, b == nil)
@@ -289,6 +293,7 @@ func recC19(c *ctx) {
 	valid["ecvrf.Verify_v10"] = [][]byte{pub, ecvrf.Prove_v10(priv, msg), msg}
 	valid["ecvrf.VerifyGoodKey"] = [][]byte{proof, msg}
 	valid["ecvrf.ProofToHash"] = [][]byte{proof}
+	valid["ecvrf.ProveWithAddedRandomness"] = [][]byte{priv, msg}
 	valid["sr25519.NewPublicKeyFromBytes"] = [][]byte{srPub}
 	valid["sr25519.NewSecretKeyFromBytes"] = [][]byte{srSec}
 	valid["sr25519.NewKeyPairFromBytes"] = [][]byte{srKp}
@@ -307,6 +312,28 @@ func recC19(c *ctx) {
 			nils = append(nils, x == nil)
 		}
 		e["lens"], e["nil"] = lens, nils
+		// every argument is handed over as a sub-slice of a larger poisoned buffer (capacity > length): a callee that
+		// writes or appends past what it was given corrupts its caller's memory
+		bufs := make([][]byte, len(args))
+		orig := make([][]byte, len(args))
+		for i, x := range args {
+			if x == nil {
+				continue
+			}
+			orig[i] = append([]byte(nil), x...)
+			bufs[i] = append(append([]byte(nil), x...), bytes.Repeat([]byte{0xa7}, 48)...)
+			args[i] = bufs[i][:len(x)]
+		}
+		defer func() {
+			over := false
+			for i := range bufs {
+				if bufs[i] != nil && !bytes.Equal(bufs[i][len(orig[i]):], bytes.Repeat([]byte{0xa7}, 48)) {
+					over = true
+				}
+			}
+			e["overrun"] = over
+			c.w.Emit(e)
+		}()
 		func() {
 			defer func() {
 				if p := recover(); p != nil {
@@ -333,7 +360,6 @@ func recC19(c *ctx) {
 			}
 			e["args"] = as
 		}
-		c.w.Emit(e)
 	}
 	lengths := func() []int {
 		var l []int
